@@ -87,8 +87,9 @@ PROPS = {
              extra_flavours={"quick": {"plain": (1500, 15)}, "thorough": {"plain": (20000, 120)}}),
     "C15": P("exploration",
              "seeded histories: three instances, 8-40 mixed operations (thorough to 120) with every input buffer read-only between two guard pages (right-aligned or ASan-poisoned slack), canaries (fixed configuration+data re-encoded and compared with the digest taken in fresh-process state) after failed calls, backend failures, instance churn and environment flips",
-             (8000, 40), (200000, 600), [ISAL_ASSUME],
-             expect_probes=["canary.match"]),
+             (8000, 40), (200000, 600), [ISAL_ASSUME, "a second pass runs the same plans on the un-sanitized -O2 build, where the allocator recycles dirty chunks (ASan fills fresh allocations with a constant)"],
+             expect_probes=["canary.match"],
+             extra_flavours={"quick": {"plain": (4000, 15)}, "thorough": {"plain": (100000, 200)}}),
     "C16": P("exploration",
              "seeded histories of 20-80 operations (thorough to 300) over four slots mixing valid calls with their cleanups, arbitrary (insufficient, beyond-tolerance, damaged) fragment sets, malformed calls, unsupported shapes, backend and dependency failures; "
              "ownership accounting of every block allocated from library call sites: zero net after each call pair / failed call, zero at quiescence after destroying all instances; ASan for double free and use-after-free",
